@@ -512,8 +512,8 @@ fn mal_strategy() -> impl Strategy<Value = Case> {
 }
 
 fn run(ctx: &Ctx) {
-    ctx.run_sub("wellformed", ctx.tier.pick(4_000, 80_000), strategy, check);
-    ctx.run_sub("malformed", ctx.tier.pick(2_000, 40_000), mal_strategy, check);
+    ctx.run_sub("wellformed", ctx.tier.pick(20_000, 200_000), strategy, check);
+    ctx.run_sub("malformed", ctx.tier.pick(10_000, 100_000), mal_strategy, check);
 }
 
 fn replay(ctx: &Ctx, sub: &str, case: &Value) -> Result<Outcome, String> {
